@@ -70,6 +70,27 @@ def run_C02(ctx):
             nontrivial=lambda c: c.get("steps", 0) >= 3)
 
 
+def exec_run(ctx, prefix, mask, quick=1200, thorough=60000):
+    corr_run(ctx, "exec", ["exec", "--n", n_cases(ctx, quick, thorough)],
+             "Model/Exec.v frame logic (recorded-script instance) vs EVM.Call/CallCode/DelegateCall/StaticCall/Create/Create2 with fake Aspects: "
+             "results, interleaved event stream, call tree, journals, world state",
+             nontrivial=lambda c: c.get("frames", 0) >= 2, has_oracle=True,
+             oracle_prefix=prefix, diag_component="EXD", diag_mask=mask)
+
+
+def run_C04(ctx): exec_run(ctx, "C04", 1 | 4)
+def run_C05(ctx): exec_run(ctx, "C05", 2)
+def run_C06(ctx): exec_run(ctx, "C06", 1 | 2)
+def run_C08(ctx): exec_run(ctx, "C08", 8)
+def run_C10(ctx): exec_run(ctx, "C10", 8)
+def run_C13(ctx): exec_run(ctx, "C13", 8)
+
+
+EXEC_RULE = ("scenario = 4 mutually calling generated contracts (snippet grammar incl. all call kinds, value transfers, SSTORE/LOG/CREATE/CREATE2/SELFDESTRUCT, "
+             "journal instructions, calls to precompiles 0x04 and 0x64-0x66, early exits) x 6 entry points x forks Byzantium..Cancun x random Aspect bindings "
+             "(0-2 Aspects per join point, provider errors) x per-firing Aspect behaviour (burn 0/small/more than available, return data, out-of-gas / revert-text / generic failure) "
+             "x gas limits (ample or 2k-60k) x debug tracer on/off x Aspect logger on/off; non-trivial = at least 2 frames executed; distinct = distinct case lines")
+
 HOOK_COMMITS = []
 NOT_YET = {}
 
@@ -166,3 +187,41 @@ PROPS = {
         "assumptions": ["Go slices are shorter than 2^63 bytes", "the host callbacks do not panic"],
     },
 }
+
+def _exec_prop(run, technique, text, extra_note=""):
+    return {
+        "run": run, "technique": technique, "level_text": text,
+        "level_note": COMMON_NOTE + "The frame logic (vm/evm.go Call/CallCode/DelegateCall/StaticCall/create, vm/interpreter.go Run) is modelled by hand in Model/Exec.v, generic in the "
+                      "instruction semantics; what each frame's instructions did is replayed from the implementation's own debug trace (recorded scripts), so instruction-level behaviour is taken from the code, "
+                      "not verified here. Modelled rather than verified: geth StateDB (balances, nonces, storage, existence, logs, self-destruct flags as observed), aspect-core djpm glue (transactionAdvice/runAspect), "
+                      "the Aspect runtime (a fake installed through the runtime pool). " + extra_note,
+        "rule": EXEC_RULE,
+        "modelled": ["vm/evm.go:238-664", "vm/interpreter.go:112-247 (loop structure)", "vm/tracer.go Tracer", "aspect-core djpm.Aspect.transactionAdvice/runAspect (as observed)"],
+        "assumptions": ["the Aspect runtime reports no more leftover gas than it was given (C06 gas inequality only)"],
+    }
+
+
+PROPS.update({
+    "C04": _exec_prop(run_C04, "Coq theorems (failure atomicity of all five entry points, any instruction semantics / Aspect behaviour / failure position) + frame correspondence + world-digest oracle",
+                      "Theorems in Coq over the generic frame model: whenever Call, CallCode, DelegateCall, StaticCall end in an error the world state equals the state on entry; a failed create leaves the entry state "
+                      "or the entry state with the creator's nonce bumped and the address warm. Proved for every instruction semantics, host, precompile, Aspect oracle, provider and fuel. The model is run against the real "
+                      "entry points on generated scenarios with failures injected at join-point firings; an independent oracle compares a digest of the world before every call instruction and after a failed call."),
+    "C05": _exec_prop(run_C05, "Coq theorems (no join point anywhere when switched off; pre-failure result) + frame correspondence comparing every provider query / Aspect enter / firing payload / exit in order + bracket oracle",
+                      "Theorems in Coq: with join points off (or without the Artela additions) no join-point event occurs in any execution (mutual induction over all entry points); a failing pre join point fails the frame. "
+                      "Exactly-once, ordering, LIFO nesting and payload identity are carried by the frame model's definition of do_call and checked against the code event by event: the fake provider and runtime log every query and the decoded "
+                      "request; an independent oracle checks per call frame: queries are [] / [pre] / [pre, post], payload fields equal the call's, a bound Aspect receives the call also for empty calldata."),
+    "C06": _exec_prop(run_C06, "Coq theorems (out-of-gas join point = EVM out of gas with no gas, post failure forfeits, success hands back the leftover, frame gas <= supplied) + frame correspondence on gas values",
+                      "Theorems in Coq about the gas the frame logic hands over: a join point failing with the text 'out of gas' yields the EVM's own error and zero gas (pre and post), any other post failure forfeits all gas and rolls back, "
+                      "a succeeding post join point's leftover is what the caller gets, and no CALL frame returns more than it was given provided Aspects, precompiles and interpreter runs do not. The model's per-step gas, enter/exit gas and "
+                      "call-tree gas are compared with the implementation's under Aspects burning 0 / some / more than available gas."),
+    "C08": _exec_prop(run_C08, "Coq theorems (one node per attempt with inputs as made and outcome as returned; existing nodes immutable) by mutual induction + frame correspondence + independent instruction-stream log",
+                      "Theorems in Coq: every do_call / do_create adds exactly one node at the next index under the cursor with caller, target, calldata/init code, value, gas as passed and ret, leftover gas, error as returned, "
+                      "for every nesting and outcome; a whole call leaves all earlier nodes untouched except for the issuing node's children. Go slice aliasing is outside the model: the harness builds an independent log from the "
+                      "CALL/CREATE steps of the debug trace (operands and memory at that moment) and compares it with the call tree read after the top-level return, with programs that reuse their argument memory."),
+    "C10": _exec_prop(run_C10, "Coq theorem (journal entries of a frame carry its storage address and the index of the innermost CALL/CREATE node, across any nested calls) + frame correspondence of key-tree queries",
+                      "Theorem in Coq by induction over the interpreter loop, using the balanced-call-tree theorem for every nested entry point: all journal instructions a frame executes itself are filed under f_self and the cursor index at "
+                      "frame start; callees' entries are tagged strictly deeper; failed frames keep their entries. The journal state after scenario executions (FindKeyIndices / Balance / changes per call index) is compared with the model's."),
+    "C13": _exec_prop(run_C13, "Coq theorems (transfer recorded with balances read before and after the host transfer, under the frame's own node) + frame correspondence + wrapping-transfer oracle",
+                      "Theorems in Coq: the frame logic records the sender's and recipient's balances read from the state immediately before and after whatever the host transfer function does, in that order, under the index of the node just added; "
+                      "entering/leaving a call writes nothing else to the journal. The harness installs a wrapping transfer function and compares StateChanges.Balance of every address with the balances it saw."),
+})
